@@ -18,8 +18,12 @@ def toktable(repo):
     _, doc = G.doc_grammar(repo)
     # the documented normalisation of patterns (generate_grammar_md._normalize_*): non-word characters of
     # literals are backslash-escaped, `|` in regexes is escaped for the Markdown table
+    # what a reader sees: a Markdown table cell in which `\|` stands for `|` (the only escape inside a code span of a
+    # table).  The *rendered* cell must be the pattern: the tokenizer's regex itself, and for a literal the regex that
+    # matches exactly that literal (every non-word character escaped).
     want = [(re.sub(r"(\W)", r"\\\1", l), '"' + l + '"') for l in lits]
-    want += [(re.sub(r"\|", r"\\|", p), s) for p, s, _ in regs]
+    want += [(p, s) for p, s, _ in regs]
+    doc = [(d[0].replace("\\|", "|"),) + tuple(d[1:]) for d in doc]
     res.instances = len(want)
     if len(doc) != len(want):
         res.add("doc|count", f"doc/grammar.md documents {len(doc)} token patterns, the tokenizer has {len(want)}", G.GRAMMAR_MD)
